@@ -1965,4 +1965,314 @@ theorem evacuate_body {o : Ops K} (ho : HashOK o) {h : HMap K V} (hw : WF o h) {
           rw [gnold, gbk_other (j' + h.noldbuckets) (by omega) (fun _ => by omega)]
           exact a7 hsf
 
+/-- old bucket `j` is evacuated (or the map is not growing) -/
+def EvacAt (h : HMap K V) (j : Nat) : Prop :=
+  match h.old with
+  | none => True
+  | some oa => evacuatedChain (oa.getD j []) = true
+
+omit [Inhabited K] [Inhabited V] in
+theorem home_iff (h : HMap K V) (b : Nat) : Home h b ↔ EvacAt h (b % h.noldbuckets) := by
+  unfold Home EvacAt; cases h.old <;> simp
+
+omit [Inhabited K] [Inhabited V] in
+theorem advanceLoop_spec (oa : Array (Chain K V)) (stop : Nat) : ∀ (fuel n : Nat), n ≤ stop →
+    n ≤ advanceLoop oa stop fuel n ∧ advanceLoop oa stop fuel n ≤ stop ∧
+    ∀ j, n ≤ j → j < advanceLoop oa stop fuel n → bucketEvacuated oa j = true := by
+  intro fuel
+  induction fuel with
+  | zero => intro n hn; exact ⟨Nat.le_refl _, hn, fun j h1 h2 => by simp [advanceLoop] at h2; omega⟩
+  | succ fuel ih =>
+    intro n hn
+    simp only [advanceLoop]
+    split
+    · rename_i hc
+      simp only [Bool.and_eq_true, bne_iff_ne, ne_eq] at hc
+      obtain ⟨a, b, c⟩ := ih (n + 1) (by omega)
+      refine ⟨by omega, b, fun j h1 h2 => ?_⟩
+      by_cases hj : j = n
+      · rw [hj]; exact hc.2
+      · exact c j (by omega) h2
+    · exact ⟨Nat.le_refl _, hn, fun j h1 h2 => by omega⟩
+
+/-- all chains of the old array are evacuated: it contributes nothing -/
+theorem old_dead {o : Ops K} {h : HMap K V} {oa : Array (Chain K V)} (hO : OldOK o h oa)
+    (hall : ∀ j (hj : j < oa.size), evacuatedChain oa[j] = true) : chainAbs (cellsOf oa) = [] := by
+  apply chainAbs_nil_of_dead
+  intro x hx
+  obtain ⟨j, hj, hxj⟩ := mem_cellsOf hx
+  exact (hO.chains j hj).1 (hall j hj) x hxj
+
+theorem advance_spec {o : Ops K} {h : HMap K V} (hw : WF o h) {oa : Array (Chain K V)} (hold : h.old = some oa)
+    (hev : evacuatedChain (oa.getD h.nevacuate []) = true) :
+    WF o (advanceEvacuationMark h h.noldbuckets) ∧ abs (advanceEvacuationMark h h.noldbuckets) = abs h ∧
+    (advanceEvacuationMark h h.noldbuckets).B = h.B ∧ (advanceEvacuationMark h h.noldbuckets).hash0 = h.hash0 ∧
+    (advanceEvacuationMark h h.noldbuckets).count = h.count ∧
+    ((advanceEvacuationMark h h.noldbuckets).old = none ∨
+      ((advanceEvacuationMark h h.noldbuckets).old = some oa ∧
+       (advanceEvacuationMark h h.noldbuckets).sameSizeGrow = h.sameSizeGrow)) := by
+  have hO := hw.old
+  rw [hold] at hO
+  simp only at hO
+  have hsz := hO.size
+  have hnv := hO.nevac
+  unfold advanceEvacuationMark
+  split
+  · rename_i hn; rw [hold] at hn; cases hn
+  rename_i oa' hsome
+  rw [hold] at hsome
+  cases hsome
+  simp only
+  obtain ⟨l1, l2, l3⟩ := advanceLoop_spec oa (min (h.nevacuate + 1 + 1024) h.noldbuckets) 1024 (h.nevacuate + 1)
+    (by rw [← hsz]; omega)
+  generalize advanceLoop oa (min (h.nevacuate + 1 + 1024) h.noldbuckets) 1024 (h.nevacuate + 1) = r at *
+  have hevac : ∀ j (hj : j < oa.size), j < r → evacuatedChain oa[j] = true := by
+    intro j hj hjr
+    by_cases h1 : j < h.nevacuate
+    · exact hO.done j hj h1
+    · by_cases h2 : j = h.nevacuate
+      · subst h2; rw [getD_eq hj] at hev; exact hev
+      · have := l3 j (by omega) hjr
+        unfold bucketEvacuated at this
+        rw [getD_eq hj] at this; exact this
+  split
+  · rename_i hr
+    have hr' : r = h.noldbuckets := by simpa using hr
+    have hdead : chainAbs (cellsOf oa) = [] := old_dead hO (fun j hj => hevac j hj (by rw [hr', ← hsz]; exact hj))
+    have habs : abs { h with nevacuate := r, old := none, sameSizeGrow := false, dead := (h.gen - 1, oa) :: h.dead } = abs h := by
+      unfold abs allCells
+      simp only [hold, Option.getD_none, Option.getD_some, chainAbs_append, hdead]
+      simp [cellsOf]
+    refine ⟨?_, habs, rfl, rfl, rfl, Or.inl rfl⟩
+    exact ⟨hw.size, hw.newOK, by rw [habs]; exact hw.count, by rw [habs]; exact hw.nodup, rfl⟩
+  · rename_i hr
+    have hr' : r ≠ h.noldbuckets := by simpa using hr
+    have habs : abs { h with nevacuate := r } = abs h := rfl
+    refine ⟨?_, habs, rfl, rfl, rfl, Or.inr ⟨hold, rfl⟩⟩
+    refine ⟨hw.size, hw.newOK, hw.count, hw.nodup, ?_⟩
+    simp only [hold]
+    exact ⟨hO.size, hO.bpos, by show r < oa.size; rw [hsz]; omega, fun j hj hjr => hevac j hj hjr, hO.chains⟩
+
+
+/-- what one call of `evacuate(t, h, j)` establishes -/
+structure EvacPost (o : Ops K) (h h' : HMap K V) (j : Nat) : Prop where
+  wf : WF o h'
+  perm : (abs h').Perm (abs h)
+  B : h'.B = h.B
+  hash0 : h'.hash0 = h.hash0
+  count : h'.count = h.count
+  ssg : ∀ oa', h'.old = some oa' → h'.sameSizeGrow = h.sameSizeGrow ∧ ∃ oa, h.old = some oa ∧ oa'.size = oa.size
+  evac : EvacAt h' j
+  mono : ∀ j', EvacAt h j' → EvacAt h' j'
+  still : h.old = none → h'.old = none
+
+omit [Inhabited K] [Inhabited V] in
+theorem getD_set_self {a : Array (Chain K V)} {j : Nat} (hj : j < a.size) (c : Chain K V) :
+    (a.setIfInBounds j c).getD j [] = c := by
+  rw [Array.getD_eq_getD_getElem?, Array.getElem?_setIfInBounds_self]; simp [hj]
+
+omit [Inhabited K] [Inhabited V] in
+theorem getD_set_ne {a : Array (Chain K V)} {j j' : Nat} (hne : j ≠ j') (c : Chain K V) :
+    (a.setIfInBounds j c).getD j' [] = a.getD j' [] := by
+  rw [Array.getD_eq_getD_getElem?, Array.getD_eq_getD_getElem?, Array.getElem?_setIfInBounds_ne hne]
+
+theorem evacCopy_spec {o : Ops K} (ho : HashOK o) {h : HMap K V} (hw : WF o h) {oa : Array (Chain K V)}
+    (hold : h.old = some oa) {j : Nat} (hj : j < oa.size) :
+    ∃ h1, evacCopy o h oa j = .ok h1 ∧
+      WF o h1 ∧ (abs h1).Perm (abs h) ∧ h1.B = h.B ∧ h1.hash0 = h.hash0 ∧ h1.count = h.count ∧
+      h1.sameSizeGrow = h.sameSizeGrow ∧ h1.nevacuate = h.nevacuate ∧
+      ∃ oa1, h1.old = some oa1 ∧ oa1.size = oa.size ∧ evacuatedChain (oa1.getD j []) = true ∧
+        ∀ j', evacuatedChain (oa.getD j' []) = true → evacuatedChain (oa1.getD j' []) = true := by
+  unfold evacCopy
+  simp only [getD_eq hj]
+  cases hev : evacuatedChain oa[j] with
+  | true =>
+    exact ⟨h, rfl, hw, List.Perm.refl _, rfl, rfl, rfl, rfl, rfl, oa, hold, rfl, (by rw [getD_eq hj]; exact hev),
+      fun _ e => e⟩
+  | false =>
+    obtain ⟨marked, x, y, h2, hevc, hs, hwf, hperm, hmev, hlen⟩ := evacuate_body ho hw hold hj hev
+    simp only [Bool.not_false, if_true, hevc, bind, Except.bind, pure, Except.pure]
+    refine ⟨_, rfl, hwf, hperm, hs.B, hs.hash0, hs.count, hs.ssg, hs.nev, _, rfl, by simp, ?_, ?_⟩
+    · rw [getD_set_self hj]; exact hmev
+    · intro j' e
+      by_cases hjj : j = j'
+      · subst hjj; rw [getD_set_self hj]; exact hmev
+      · rw [getD_set_ne hjj]; exact e
+
+theorem evacuate_spec {o : Ops K} (ho : HashOK o) {h : HMap K V} (hw : WF o h) {j : Nat}
+    (hjs : ∀ oa, h.old = some oa → j < oa.size) : ∃ h', evacuate o h j = .ok h' ∧ EvacPost o h h' j := by
+  unfold evacuate
+  split
+  · rename_i hold
+    exact ⟨h, rfl, hw, List.Perm.refl _, rfl, rfl, rfl, (fun oa' e => by rw [hold] at e; cases e),
+      (by unfold EvacAt; rw [hold]; trivial), fun _ e => e, fun _ => hold⟩
+  · rename_i oa hold
+    have hj := hjs oa hold
+    obtain ⟨h1, hstep, hw1, hp1, hB1, h01, hc1, hs1, hn1, oa1, hold1, hsz1, hev1, hmono1⟩ :=
+      evacCopy_spec ho hw hold hj
+    have hnold1 : h1.noldbuckets = h.noldbuckets := noldbuckets_congr hB1 hs1
+    simp only [hstep, bind, Except.bind, pure, Except.pure]
+    have hmono : ∀ j', EvacAt h j' → EvacAt h1 j' := by
+      intro j' e
+      unfold EvacAt at e ⊢
+      rw [hold] at e; rw [hold1]
+      exact hmono1 j' e
+    split
+    · rename_i hjn
+      have hjn' : j = h1.nevacuate := by simpa using hjn
+      have hev' : evacuatedChain (oa1.getD h1.nevacuate []) = true := by rw [← hjn']; exact hev1
+      obtain ⟨aw, aabs, aB, a0, ac, aold⟩ := advance_spec hw1 hold1 hev'
+      rw [hnold1] at aw aabs aB a0 ac aold
+      refine ⟨_, rfl, aw, by rw [aabs]; exact hp1, aB.trans hB1, a0.trans h01, ac.trans hc1, ?_, ?_, ?_, ?_⟩
+      · intro oa' e
+        rcases aold with e0 | ⟨e1, e2⟩
+        · rw [e0] at e; cases e
+        · rw [e1] at e; cases e
+          exact ⟨e2.trans hs1, oa, hold, hsz1⟩
+      · unfold EvacAt
+        rcases aold with e0 | ⟨e1, _⟩
+        · rw [e0]; trivial
+        · rw [e1]; exact hev1
+      · intro j' e
+        have := hmono j' e
+        unfold EvacAt at this ⊢
+        rcases aold with e0 | ⟨e1, _⟩
+        · rw [e0]; trivial
+        · rw [e1]; rw [hold1] at this; exact this
+      · intro e; rw [hold] at e; cases e
+    · refine ⟨h1, rfl, hw1, hp1, hB1, h01, hc1, ?_, ?_, hmono, ?_⟩
+      · intro oa' e
+        rw [hold1] at e; cases e
+        exact ⟨hs1, oa, hold, hsz1⟩
+      · unfold EvacAt; rw [hold1]; exact hev1
+      · intro e; rw [hold] at e; cases e
+
+
+
+
+theorem nold_pos (h : HMap K V) : 0 < h.noldbuckets := by
+  unfold HMap.noldbuckets; split <;> exact Nat.pow_pos (by omega)
+
+theorem growWork_spec {o : Ops K} (ho : HashOK o) {h : HMap K V} (hw : WF o h) (b : Nat) :
+    ∃ h', growWork o h b = .ok h' ∧ WF o h' ∧ (abs h').Perm (abs h) ∧ h'.B = h.B ∧ h'.hash0 = h.hash0 ∧
+      h'.count = h.count ∧ Home h' b ∧ (h.old = none → h'.old = none) := by
+  unfold growWork
+  have hjs : ∀ oa, h.old = some oa → b % h.noldbuckets < oa.size := by
+    intro oa hold
+    have hO := hw.old
+    rw [hold] at hO
+    rw [hO.size]; exact Nat.mod_lt _ (nold_pos h)
+  obtain ⟨h1, he1, p1⟩ := evacuate_spec ho hw hjs
+  simp only [he1, bind, Except.bind]
+  cases hg : h1.old with
+  | none =>
+    have : h1.growing = false := by simp [HMap.growing, hg]
+    simp only [this, Bool.false_eq_true, if_false, pure, Except.pure]
+    exact ⟨h1, rfl, p1.wf, p1.perm, p1.B, p1.hash0, p1.count, by unfold Home; rw [hg]; trivial, fun _ => hg⟩
+  | some oa1 =>
+    have : h1.growing = true := by simp [HMap.growing, hg]
+    simp only [this, if_true]
+    have hO1 := p1.wf.old
+    rw [hg] at hO1
+    simp only at hO1
+    obtain ⟨h2, he2, p2⟩ := evacuate_spec ho p1.wf (j := h1.nevacuate) (fun oa e => by
+      rw [hg] at e; cases e; exact hO1.nevac)
+    refine ⟨h2, he2, p2.wf, p2.perm.trans p1.perm, p2.B.trans p1.B, p2.hash0.trans p1.hash0,
+      p2.count.trans p1.count, ?_, ?_⟩
+    · rw [home_iff]
+      cases hg2 : h2.old with
+      | none => unfold EvacAt; rw [hg2]; trivial
+      | some oa2 =>
+        obtain ⟨s2, _⟩ := p2.ssg oa2 hg2
+        obtain ⟨s1, _⟩ := p1.ssg oa1 hg
+        have hn : h2.noldbuckets = h.noldbuckets := noldbuckets_congr (p2.B.trans p1.B) (s2.trans s1)
+        rw [hn]
+        exact p2.mono _ p1.evac
+    · intro e
+      have := p1.still e
+      rw [hg] at this; cases this
+
+theorem freshArray_get (B i : Nat) (hi : i < 2 ^ B) : (freshArray K V B)[i]? = some (freshBucket K V) := by
+  unfold freshArray
+  rw [Array.getElem?_replicate]; simp [hi]
+
+theorem freshBucket_ok (o : Ops K) (seed : UInt32) (n i : Nat) : NewChainOK o seed n i (freshBucket K V) := by
+  have hdead : ∀ y ∈ freshBucket K V, y.live = false := fun y hy => by
+    rw [List.eq_of_mem_replicate hy]; exact dead_of_emptyRest rfl
+  refine ⟨?_, restOK_replicate_zero _ _ (dead_of_emptyRest rfl), ?_, ?_, by simp [freshBucket, bucketCnt]⟩
+  · intro y hy; left; rw [List.eq_of_mem_replicate hy]; simp [emptyRest]
+  · intro y hy hl; rw [hdead y hy] at hl; cases hl
+  · intro y hy hl; rw [hdead y hy] at hl; cases hl
+
+theorem cellsOf_fresh_abs (B : Nat) : chainAbs (cellsOf (freshArray K V B)) = [] := by
+  apply chainAbs_nil_of_dead
+  intro x hx
+  obtain ⟨i, hi, hxi⟩ := mem_cellsOf hx
+  have : (freshArray K V B)[i] = freshBucket K V := by simp [freshArray]
+  rw [this] at hxi
+  rw [List.eq_of_mem_replicate hxi]; exact dead_of_emptyRest rfl
+
+theorem hashGrow_spec {o : Ops K} {h : HMap K V} (hw : WF o h) (hold : h.old = none) :
+    WF o (hashGrow h) ∧ abs (hashGrow h) = abs h ∧ (hashGrow h).old = some h.buckets ∧
+      (hashGrow h).hash0 = h.hash0 ∧ (hashGrow h).count = h.count := by
+  have hssg : h.sameSizeGrow = false := by have := hw.old; rw [hold] at this; exact this
+  have habs : abs (hashGrow h) = abs h := by
+    unfold abs allCells hashGrow
+    simp only [hold, Option.getD_some, Option.getD_none, chainAbs_append, cellsOf_fresh_abs]
+    simp [cellsOf]
+  -- the two shapes of growth
+  have shape : ((hashGrow h).B = h.B + 1 ∧ (hashGrow h).sameSizeGrow = false) ∨
+      ((hashGrow h).B = h.B ∧ (hashGrow h).sameSizeGrow = true) := by
+    unfold hashGrow
+    cases hb : overLoadFactor (h.count + 1) h.B
+    · right; simp
+    · left; simp [hssg]
+  have hbk : (hashGrow h).buckets = freshArray K V (hashGrow h).B := rfl
+  have hnold : (hashGrow h).noldbuckets = 2 ^ h.B := by
+    unfold HMap.noldbuckets
+    rcases shape with ⟨e1, e2⟩ | ⟨e1, e2⟩ <;> simp [e1, e2]
+  have hBle : 2 ^ h.B ≤ 2 ^ (hashGrow h).B := by
+    rcases shape with ⟨e1, _⟩ | ⟨e1, _⟩ <;> rw [e1]
+    · rw [Nat.pow_succ]; omega
+    · exact Nat.le_refl _
+  refine ⟨?_, habs, rfl, rfl, rfl⟩
+  apply wf_intro
+  · rw [hbk]; simp [freshArray]
+  · intro i c hc
+    rw [hbk] at hc
+    unfold freshArray at hc
+    rw [Array.getElem?_replicate] at hc
+    by_cases hlt : i < 2 ^ (hashGrow h).B
+    · simp only [hlt, if_true, Option.some.injEq] at hc
+      rw [← hc]; exact freshBucket_ok _ _ _ _
+    · simp only [hlt, if_false] at hc; cases hc
+  · rw [habs]; exact hw.count
+  · rw [habs]; exact hw.nodup
+  · show OldOK o (hashGrow h) h.buckets
+    apply oldOK_intro
+    · rw [hnold]; exact hw.size
+    · intro e
+      rcases shape with ⟨e1, _⟩ | ⟨_, e2⟩
+      · omega
+      · rw [e2] at e; cases e
+    · show 0 < h.buckets.size
+      rw [hw.size]; exact Nat.pow_pos (by omega)
+    · intro j c _ hj
+      have : (hashGrow h).nevacuate = 0 := rfl
+      omega
+    · intro j c hc
+      obtain ⟨a1, a2, a3, a4, a5⟩ := hw.newOK' hc
+      obtain ⟨hj, _⟩ := getElem_of_getElem? hc
+      rw [hw.size] at hj
+      have hne := not_evacuated_of_noMarks a1
+      refine ⟨(fun e => by rw [hne] at e; cases e), fun _ => ⟨a1, a2, ?_, a4, a5, ?_, ?_⟩⟩
+      · rw [hnold]; exact a3
+      · rw [hbk]; exact freshArray_get _ _ (by omega)
+      · intro e
+        rw [hnold, hbk]
+        apply freshArray_get
+        rcases shape with ⟨e1, _⟩ | ⟨_, e2⟩
+        · rw [e1, Nat.pow_succ]; omega
+        · rw [e2] at e; cases e
+
 end LlgoVerif.HMap
